@@ -57,7 +57,7 @@ def run(m):
             res["result"] = "does not compile"
             return res
         try:
-            r = subprocess.run(["go", "test", "-overlay", ov, "-vet=off", "./..."], cwd="/repo", env=ENV, capture_output=True, text=True, timeout=600)
+            r = subprocess.run(["timeout", "-k", "5", "400", "go", "test", "-overlay", ov, "-vet=off", "-timeout", "150s", "./..."], cwd="/repo", env=ENV, capture_output=True, text=True, timeout=600)
             suite_ok = r.returncode == 0
         except subprocess.TimeoutExpired:
             suite_ok = False
